@@ -1,6 +1,6 @@
 """Property -> rules table. Each rule callable: (prog, tier, repo) -> [RuleResult]."""
 from .rules import traversal_instances as TI
-from .rules import gate, lookup_unwrap, heap, witness, incremental, optimizer, const_arith, shape, backend, printer_rules, comment_linear, enum_evidence, ssa_shared, lex_bounds, gc_rules, scope, eval_order
+from .rules import gate, lookup_unwrap, heap, witness, incremental, optimizer, const_arith, shape, backend, printer_rules, comment_linear, enum_evidence, ssa_shared, lex_bounds, gc_rules, scope, eval_order, guard_table, relation
 
 PROPERTIES = {}
 
@@ -45,9 +45,11 @@ prop('C02', COMMON +
      'swapping <=> mirror operator, never for non-commutative operators; `x - n` -> `x + (-n)` only behind n != i32::MIN. '
      'SCOPE-BRACKET: push_scope/pop_scope of every stacked fact context are balanced on all paths, and every recursive '
      'descent into a nested statement list is bracketed by the same contexts as its sibling descents. COUNTER-SYNC: '
-     'every temp-name counter is synchronised back into the heap on every path before the next one is created. '
+     'every temp-name counter is synchronised back into the heap on every path before the next one is created. GUARD-TABLE: '
+     'the loop optimiser\'s operator tables (guard extraction, negation, rebuild) are evaluated from MIR for every input and '
+     'compared with integer order logic. '
      'Does not decide loop closed forms, LICM legality, inlining capture-avoidance or escape analysis.',
-     [const_arith.run, optimizer.run_dce_keep, optimizer.run_fold_table, optimizer.run_swap_table, scope.run_bracket, scope.run_counter_sync,
+     [const_arith.run, optimizer.run_dce_keep, optimizer.run_fold_table, optimizer.run_swap_table, guard_table.run, scope.run_bracket, scope.run_counter_sync,
       TI.make(['T-dce', 'T-conditional_constant_propagation', 'T-inlining', 'T-local_value_numbering',
                'T-scalar_replacement', 'T-unused_name_elimination', 'T-loop_induction_variable_elimination'])])
 
@@ -61,8 +63,11 @@ prop('C06', COMMON +
      'where the parsed value is proven to fit (checked per incoming path, because the join loses the disjunction). '
      'ASSIGN-ALL-PATHS: the checker functions typing a binary operator, a unary operator and an if-else perform an '
      'assignability check on every path. SCOPE-IFLET-ELSE: the scope analysis visits the else-branch of an if-let at the scope depth of the whole '
-     'expression (pattern bindings are not visible there).',
-     [gate.run_gate, gate.run_errset, gate.run_assign_all_paths, lex_bounds.run_int_range, scope.run_iflet_else, TI.make(['T-chk', 'T-ssa'])])
+     'expression (pattern bindings are not visible there). REENTRANT-RESTORE: a typing-context field overridden around a '
+     're-entrant call (synthesis mode) is restored on every path. REL-FIELDS: every checker function relating two types '
+     '(same-type, assignable, meet, subtype) reads every identity field of the payload structs it compares from both sides.',
+     [gate.run_gate, gate.run_errset, gate.run_assign_all_paths, lex_bounds.run_int_range, scope.run_iflet_else,
+      lambda prog, tier, repo: scope.run_reentrant_restore(prog, tier, repo, crates=('samlang_checker',)), relation.run, TI.make(['T-chk', 'T-ssa'])])
 
 prop('C08', COMMON +
      'TRAVERSAL/SIBLING: the pretty-printer reads every expression, pattern, annotation, identifier and literal slot of '
@@ -138,9 +143,13 @@ prop('C03', COMMON +
      'program anywhere in parser/checker/compiler/optimizer; taint from integer-literal payloads to Assert terminators), '
      'SHAPE-PRODUCER (the parser never constructs a raw MethodAccess node and every Tuple node it builds is dominated by '
      'truncate(16) and by a test excluding the one-element case - the shapes the checker panics on), TS-SPLICE (no '
-     'unsanitised string content between the backticks of an emitted template literal). Does not decide '
+     'unsanitised string content between the backticks of an emitted template literal), REENTRANT-RESTORE (a lowering-manager '
+     'field overwritten before the lowering re-enters itself - the current loop context - is put back from a saved copy '
+     'on every path, so a break lowered after a nested loop still finds its loop), REL-FIELDS (type relations of the checker compare every '
+     'identity field, e.g. class-statics vs instance types - the accepted-but-unlowerable programs). Does not decide '
      'type soundness of the checker or validity of the emitted module.',
-     [const_arith.run, shape.run_shape, backend.run_ts_splice, gate.run_assign_all_paths],
+     [const_arith.run, shape.run_shape, backend.run_ts_splice, gate.run_assign_all_paths,
+      lambda prog, tier, repo: scope.run_reentrant_restore(prog, tier, repo, crates=('samlang_compiler',)), relation.run],
      ['A-05.1: parenthesised lists reaching a Tuple construction are non-empty (the first element is parsed before)'])
 
 prop('C04', COMMON +
